@@ -157,6 +157,28 @@ def POST_INSTALL():
     V.SymReal.__pow__ = sym_pow
     V.SymReal.__rpow__ = sym_rpow
 
+    # np.asarray / np.array with a float dtype: the result may later receive proxies in place (`w = np.asarray(w, dtype="float"); w *= data`),
+    # so - like the facade's float allocations - it must be an object array; and like numpy, asarray of an array that already stands for a
+    # float array (an object array) returns the SAME buffer, so in-place updates alias the caller's array exactly as they do natively
+    from symx import shim
+
+    orig_asarray, orig_array = shim.NPFacade.asarray, shim.NPFacade.array
+
+    def _float_obj(self, obj, dtype, copy, orig, kw):
+        if shim.ENABLED[0] and dtype is not None and shim._is_float_dtype(dtype) and not kw:
+            raw = shim.unwrap(obj)
+            if isinstance(raw, np.ndarray) and raw.dtype == object:
+                return V.as_symarray(raw.copy()) if copy else raw
+            if not shim.has_sym(obj):
+                try:
+                    return V.as_symarray(shim.as_obj(np.asarray(raw, dtype=float)))
+                except (TypeError, ValueError):
+                    pass
+        return orig(self, obj, dtype=dtype, **kw)
+
+    shim.NPFacade.asarray = lambda self, obj, dtype=None, **kw: _float_obj(self, obj, dtype, False, orig_asarray, kw)
+    shim.NPFacade.array = lambda self, obj, dtype=None, **kw: _float_obj(self, obj, dtype, True, orig_array, kw)
+
     # the random-pinning fallback after an 'unknown' costs up to 24 x 4 s per obligation; on a broken repository many
     # obligations go unknown at once - 6 tries keep such runs inside the budget (it only ever turns unknown into a candidate)
     from symx.explore import Explorer
@@ -401,6 +423,44 @@ def abstract_terms(arr):
     _ABS["terms"] = [e.t for e in np.asarray(arr, dtype=object).reshape(-1) if isinstance(e, V.SymReal)]
 
 
+_PIN_VALUES = ["1", "1/2", "3/4", "1/4", "2/3", "1/3", "7/8", "3/8", "5/8", "1/8", "5/6", "1/6"]
+
+
+def _pinned_counterexample(ctx, neg, tries=3):
+    consts = []
+
+    def walk(v):
+        if isinstance(v, dict):
+            for e in v.values():
+                walk(e)
+        elif isinstance(v, (list, tuple)):
+            for e in v:
+                walk(e)
+        elif isinstance(v, np.ndarray):
+            if v.dtype == object:
+                for e in v.reshape(-1):
+                    walk(e)
+        elif isinstance(v, V.SymReal) and z3.is_const(v.t):
+            consts.append(v.t)
+
+    walk(ctx.inputs)
+    if not consts:
+        return None
+    old_ms = ctx.timeout_ms
+    ctx.timeout_ms = 5000
+    ctx.solver.set("timeout", 5000)
+    try:
+        for t in range(tries):
+            pins = [c == z3.RealVal(_PIN_VALUES[(i * (t + 1) + t) % len(_PIN_VALUES)]) for i, c in enumerate(consts)]
+            r, m = ctx._check(neg, *pins)
+            if r == "sat":
+                return m
+    finally:
+        ctx.timeout_ms = old_ms
+        ctx.solver.set("timeout", old_ms)
+    return None
+
+
 def check_all(ctx, A, E, known=None):
     """hx.check_all plus term abstraction: the per-pixel weights reported by a scheme are deep ite/division terms in the
     adapt data; every obligation is an algebraic fact about them, so it is first tried with each weight term replaced by a
@@ -439,6 +499,18 @@ def check_all(ctx, A, E, known=None):
                     if len(ctx.stats.samples) < 4:
                         ctx.stats.samples.append({"obligation": k, "case": dict(ctx.case_info), "verdict": "unsat",
                                                   "smt_size": len(conj.sexpr()), "abstracted_weight_terms": len(subs)})
+                    continue
+                # not discharged in abstracted form: before the (expensive) general query look for a counterexample by plain
+                # evaluation - every input variable pinned to a small positive rational, which turns the query into arithmetic.
+                # Only ever yields a candidate (replayed on the real code), never a 'holds' verdict.
+                full = z3.And(*[z3.BoolVal(bool(o)) if isinstance(o, (bool, np.bool_)) else o for o in zs])
+                hit = _pinned_counterexample(ctx, z3.Not(full))
+                if hit is not None:
+                    from symx.explore import Candidate
+                    ctx.stats.obligations += 1
+                    ctx.stats.sat += 1
+                    if len(ctx.stats.candidates) < ctx.max_candidates:
+                        ctx.stats.candidates.append(Candidate(k, ctx.case_from_model(hit), None, None))
                     continue
         hx.check_all(ctx, A, E, known=known, only=[k])
     ctx.timeout_ms = long_ms
@@ -580,11 +652,14 @@ def body_scheme(inp, mesh, scheme, sscale, img=IMG, pd=False):
     A["params"] = int(mapper.params)
     E["params"] = n
     reg = _scheme(scheme, inp, sscale)
-    H = hx.attempt(reg.regularization_matrix_from, linear_obj=mapper)
     w = None
     if scheme in ("AdaptiveBrightness", "AdaptiveBrightnessSplit"):
-        # "w are the per-pixel regularization weights the scheme itself reports"
+        # "w are the per-pixel regularization weights the scheme itself reports".  History on the ONE mapper: weights are asked first,
+        # then the matrix, then the matrix again - every matrix must match the reported weights
         w = hx.attempt(reg.regularization_weights_from, linear_obj=mapper)
+    H = hx.attempt(reg.regularization_matrix_from, linear_obj=mapper)
+    H_again = hx.attempt(reg.regularization_matrix_from, linear_obj=mapper) if scheme in ("AdaptiveBrightness", "BrightnessZeroth") else None
+    if scheme in ("AdaptiveBrightness", "AdaptiveBrightnessSplit"):
         if isinstance(w, hx.Raised):
             A["weights.no_exception"] = repr(w) + " " + w.msg
             E["weights.no_exception"] = "ok"
@@ -603,6 +678,7 @@ def body_scheme(inp, mesh, scheme, sscale, img=IMG, pd=False):
     elif scheme == "AdaptiveBrightness":
         cw = lambda i, j: w[i] * w[i] + w[j] * w[j]
         matrix_checks(A, E, tag, H, n, x, H_ref=laplacian_ref(n, pairs, cw), quad_ref=pair_form(n, pairs, cw, x), dominance="strict")
+        matrix_checks(A, E, tag + ".second_call", H_again, n, x, H_ref=laplacian_ref(n, pairs, cw), quad_ref=pair_form(n, pairs, cw, x))
     elif scheme == "ConstantZeroth":
         matrix_checks(A, E, tag, H, n, x, dominance="weak", pd_direct=pd, pd_strict=False)
     elif scheme in ("Zeroth", "BrightnessZeroth"):
@@ -612,6 +688,8 @@ def body_scheme(inp, mesh, scheme, sscale, img=IMG, pd=False):
             if not isinstance(wz, hx.Raised):
                 abstract_terms(np.asarray(hx.unwrap(wz)))
         diagonal_checks(A, E, tag, H, n)
+        if H_again is not None:
+            diagonal_checks(A, E, tag + ".second_call", H_again, n)
     elif scheme in ("ConstantSplit", "AdaptiveBrightnessSplit"):
         # PD certificate: H is ridge*I + the rw-weighted Gram matrix of the cross rows
         mp, sz, wt = split_tables(mesh)
